@@ -2,7 +2,7 @@
 """tools/seeded_recheck.py [id ...] [--also=Cxx,Cyy]: apply each kept seeded change (/verif/seeded/<id>/patch.diff) to /repo,
 run the check of its property (and --also ones), undo, and record the outcome in meta.json ("recheck")."""
 import json, os, subprocess, sys, glob, time
-ENV = dict(os.environ, GOFLAGS="-mod=mod", GOPROXY="off", GOSUMDB="off", GOTOOLCHAIN="local")
+ENV = dict(os.environ, VERIF_SEARCH_SEEDS=os.environ.get("VERIF_SEARCH_SEEDS", "1"), GOFLAGS="-mod=mod", GOPROXY="off", GOSUMDB="off", GOTOOLCHAIN="local")
 def sh(cmd, timeout=3600):
     r = subprocess.run(cmd, shell=True, cwd="/verif", env=ENV, capture_output=True, text=True, timeout=timeout)
     return r.returncode, r.stdout + r.stderr
